@@ -1,7 +1,16 @@
 (* C12 — evaluation of generated cases: model vs observed implementation output, and the checker. *)
 From Dastard Require Import Common.ZX Common.CaseLib C12.Model C12.Spec.
 
-Record case := { c_kind : kind; c_chunks : list (list Z); c_obs : obs }.
+(* One round = one experiment: a configuration, a stream cut into calls, the observed outcome. *)
+Record round := { c_kind : kind; c_chunks : list (list Z); c_obs : obs }.
+
+(* A case is a list of rounds.  Most cases have one.  Cases of the "long-lived source" route have several:
+   ONE AbacoSource object is configured, sampled and fed data again and again with a different option set
+   each time, and every round is judged on its own: its output is compared with the model started from a
+   FRESH unwrapper built for THAT round's options ([observe] knows nothing of earlier rounds), and the
+   checker is applied to that round alone.  So any dependence of a run on the previous run of the same
+   source (options or unwrapper state surviving a reconfiguration / a new Sample()) shows up as a mismatch. *)
+Definition case := list round.
 
 Definition built_eqb (a b : built) : bool :=
   match a, b with
@@ -17,17 +26,31 @@ Fixpoint first_diff (i : Z) (a b : list Z) : Z :=
   | _, _ => i
   end.
 
-(* (code, index of the first differing output sample; -2: construction outcome or call structure differs) *)
-Definition verdict (c : case) : Z * Z :=
+(* index of the first differing output sample of a round, or -1; -2: construction outcome or call structure differs *)
+Definition round_diff (c : round) : Z :=
   let m := observe (c_kind c) (c_chunks c) in
   let o := c_obs c in
-  let d :=
-    if negb (built_eqb (o_built m) (o_built o)) then -2
-    else let d1 := first_diff 0 (o_single o) (o_single m) in
-         if negb (d1 =? -1) then d1
-         else if negb (list_eqb Z.eqb (map zlen (o_split o)) (map zlen (o_split m))) then -2
-         else first_diff 0 (concat (o_split o)) (concat (o_split m)) in
-  (verdict_code (d =? -1) (C12_check (c_kind c) (c_chunks c) o), d).
+  if negb (built_eqb (o_built m) (o_built o)) then -2
+  else let d1 := first_diff 0 (o_single o) (o_single m) in
+       if negb (d1 =? -1) then d1
+       else if negb (list_eqb Z.eqb (map zlen (o_split o)) (map zlen (o_split m))) then -2
+       else first_diff 0 (concat (o_split o)) (concat (o_split m)).
+
+Definition round_check (c : round) : bool := C12_check (c_kind c) (c_chunks c) (c_obs c).
+
+(* (code, d): all rounds must agree with the model and pass the checker; d = 1000000 * (index of the first
+   differing round) + (index of its first differing sample, or 999998 for -2), or -1 *)
+Fixpoint rounds_diff (i : Z) (rs : list round) : Z :=
+  match rs with
+  | [] => -1
+  | r :: rest => let d := round_diff r in
+                 if d =? -1 then rounds_diff (i + 1) rest
+                 else 1000000 * i + (if d <? 0 then 999998 else d)
+  end.
+
+Definition verdict (c : case) : Z * Z :=
+  let d := rounds_diff 0 c in
+  (verdict_code (d =? -1) (forallb round_check c), d).
 
 (* compact constructors for generated files *)
 (* run-length encoded list: [(count, value); ...] *)
@@ -38,5 +61,7 @@ Definition ok (single : list Z) (split : list (list Z)) : obs :=
   {| o_built := BOk; o_single := single; o_split := split |}.
 Definition panicked : obs := {| o_built := BPanic; o_single := []; o_split := [] |}.
 Definition rejected : obs := {| o_built := BRejected; o_single := []; o_split := [] |}.
-Definition mk (k : kind) (chunks : list (list Z)) (o : obs) : case :=
+Definition rd (k : kind) (chunks : list (list Z)) (o : obs) : round :=
   {| c_kind := k; c_chunks := chunks; c_obs := o |}.
+Definition mk (k : kind) (chunks : list (list Z)) (o : obs) : case := [rd k chunks o].
+Definition mkr (rs : list round) : case := rs.
